@@ -108,7 +108,7 @@ impl SimS {
                 };
                 self.seq += 1;
                 self.wire.push(InFlight {
-                    due: clock::now() + lat.max(1),
+                    due: clock::now() + lat,
                     seq: self.seq,
                     bytes,
                 });
